@@ -211,6 +211,20 @@ impl Session {
         Ok(())
     }
 
+    /// didOpen with an explicit version (a re-opened tab starts counting again)
+    pub fn did_open_versioned(&mut self, name: &str, text: &str, version: i64) -> Result<(), SessionError> {
+        let uri = self.uri(name);
+        self.send(json!({ "jsonrpc": "2.0", "method": "textDocument/didOpen", "params": {
+            "textDocument": { "uri": uri, "languageId": "tablegen", "version": version, "text": text } } }))?;
+        self.notifications_sent += 1;
+        Ok(())
+    }
+
+    pub fn did_close(&mut self, name: &str) -> Result<(), SessionError> {
+        let uri = self.uri(name);
+        self.send(json!({ "jsonrpc": "2.0", "method": "textDocument/didClose", "params": { "textDocument": { "uri": uri } } }))
+    }
+
     pub fn did_change(&mut self, name: &str, text: &str, version: i64) -> Result<(), SessionError> {
         let uri = self.uri(name);
         self.send(json!({ "jsonrpc": "2.0", "method": "textDocument/didChange", "params": {
